@@ -1121,7 +1121,12 @@ class CopyBlob(Instruction):
 
 
 class Variable(GlobalValue):
-    """Global variable, reserves room in the data area. Has name and size"""
+    """Global variable, reserves room in the data area. Has name and size
+
+    The initial value is None, or a tuple of parts. A part is either some
+    bytes, or the address of a label: (ptr, name), or the address of a label
+    plus an offset in bytes: (ptr, name, offset).
+    """
 
     def __init__(self, name, binding, amount, alignment, value=None):
         super().__init__(name, binding)
@@ -1155,6 +1160,11 @@ class Variable(GlobalValue):
                 if isinstance(part, bytes):
                     data = hexlify(part).decode("ascii")
                     parts.append(f"'{data}'")
+                elif len(part) > 2 and part[2] < 0:
+                    # Address of a label and an offset in bytes:
+                    parts.append(f"&{part[1]} - {-part[2]}")
+                elif len(part) > 2:
+                    parts.append(f"&{part[1]} + {part[2]}")
                 else:
                     # Address of a label, (ptr, name)
                     parts.append(f"&{part[1]}")
